@@ -57,9 +57,51 @@ def run(tier, prop="C15", rules=("C15.R1", "C15.R2", "C15.R3"), floors=None):
                 res.inst(f.rule, f.desc)
             else:
                 res.violate(f.rule, f.where, f.construct, f.msg if f.ok is False else "not decided by the abstract interpreter (fail closed): " + f.msg, file=f.file, line=f.line)
-    for r, n in (floors or {"C15.R1": 1, "C15.R2": 1, "C15.R3": 2, "C15.R4": 1, "C15.R5": 3}).items():
+        dep_semantics(res)
+    for r, n in (floors or {"C15.R1": 1, "C15.R2": 1, "C15.R3": 2, "C15.R4": 1, "C15.R5": 5, "C15.R6": 1}).items():
         res.floor(r, n)
     res.explanation = ("CFG must-pass-through inside the loop of GenericParser::verify_claims: the loop ranges over the whole expected-claim map and Ok is returned only after its exhaustion; for a key without validator an iteration "
                        "completes only through the not-null edge and the equal edge of serde_json Value comparisons between expected[key] and json[key] of the authenticated payload (failing edges end in Err); "
                        "who-writes: no function reachable from the 16 parse methods changes parser state, verify_claims takes &self and the parser has no interior-mutable field (outcome independent of earlier tokens)")
     return res
+
+
+# dependency features that change the meaning of an operation the rules above take as given (trusted base), with the reason
+SEMANTIC_FEATURES = {
+    "serde_json": {"arbitrary_precision": "serde_json::Number keeps the literal text: Value equality on numbers becomes textual (1.5 != 1.50, 25.0 != 2.5e1), so a token "
+                                          "carrying the expected number in another form is rejected (JSON-equal values must be accepted)"},
+}
+
+
+def dep_semantics(res):
+    """C15.R6: "JSON-equal" is decided by serde_json's Value equality (trusted).  The resolved feature set of that dependency (cargo metadata
+    over the manifest, all features of this crate) must not contain a feature that changes that equality."""
+    import json
+    import os
+    import subprocess
+    repo = F.REPO
+    env = dict(os.environ, CARGO_NET_OFFLINE="true")
+    r = subprocess.run(["cargo", "metadata", "--offline", "--format-version", "1", "--all-features", "--manifest-path", os.path.join(repo, "Cargo.toml")], capture_output=True, text=True, env=env)
+    if r.returncode != 0:
+        res.oblige(False)
+        res.violate("C15.R6", "Cargo.toml", "dependency resolution", "cargo metadata failed (fail closed): %s" % r.stderr.strip()[-200:])
+        return
+    m = json.loads(r.stdout)
+    pk = {p["id"]: p for p in m["packages"]}
+    found = False
+    for n in m["resolve"]["nodes"]:
+        p = pk[n["id"]]
+        deny = SEMANTIC_FEATURES.get(p["name"])
+        if deny is None:
+            continue
+        found = True
+        bad = sorted(set(n["features"]) & set(deny))
+        res.oblige(not bad)
+        if bad:
+            for b in bad:
+                res.violate("C15.R6", "Cargo.toml", "%s feature %s" % (p["name"], b), deny[b], file="Cargo.toml")
+        else:
+            res.inst("C15.R6", "%s %s resolved with features %s: Value equality is JSON equality" % (p["name"], p["version"], sorted(n["features"])))
+    if not found:
+        res.oblige(False)
+        res.violate("C15.R6", "Cargo.toml", "anchor missing", "serde_json is not among the resolved dependencies")
